@@ -872,6 +872,7 @@ def pHStep (tok : String) : P HStep := do
   | ["P", c, a, b] => pure (.add c a b)
   | ["B", c, a] => pure (.invert c a)
   | ["S", c, a, n] => do pure (.lshift c a (← pNat n))
+  | ["H", c, a, n] => do pure (.rshiftKeep c a (← pNat n))
   | ["X", v, a, i] => do pure (.index v a (← pNat i))
   | ["W", a, vs] => do pure (.write a (← pList pRat vs))
   | ["I", a, i, v] => do pure (.windex a (← pNat i) (← pRat v))
